@@ -3,7 +3,8 @@ package dig_test
 // Bounded stand-in (labelled bounded): integrations with different log
 // filters on ONE source client. Every transaction of the scripted node emits
 // two logs, from two contracts; integration A restricts eth_getLogs to the
-// first contract, B to the second, U has no restriction. Their plans also
+// first contract, B to the second, U has no restriction, R has none either
+// and takes its logs from the receipts. Their plans also
 // fetch headers or blocks, so they share the cached blocks the logs are
 // attached to. In every order of requests each integration must store exactly
 // the rows an uncached client gives it (its own contract's log of every
@@ -75,7 +76,8 @@ func TestVerifSharedLogsBounded(t *testing.T) {
 	}
 	cases, fails := 0, 0
 	for _, extra := range []string{"block_time", "tx_input"} { // headers + logs, blocks + logs
-		igs := map[string]dig.Integration{"A": mk(token0, extra), "B": mk(token1, extra), "U": mk("", extra)}
+		// R: unrestricted, and its logs come with the receipts (tx_status is a receipt field)
+		igs := map[string]dig.Integration{"A": mk(token0, extra), "B": mk(token1, extra), "U": mk("", extra), "R": mk("", "tx_status")}
 		// what each gets from a client of its own, and what the node's data say it should get
 		alone := map[string]string{}
 		for name, ig := range igs {
@@ -88,7 +90,7 @@ func TestVerifSharedLogsBounded(t *testing.T) {
 			for n := uint64(pStart); n < pStart+2; n++ {
 				for i := uint64(0); i < pTxs; i++ {
 					for j := uint64(0); j < 2; j++ {
-						if name == "U" || (name == "A") == (j == 0) {
+						if name == "U" || name == "R" || (name == "A") == (j == 0) {
 							want = append(want, fmt.Sprintf("%d/%d/%d=%d", n, i, 2*i+1+j, 5000+100*n+10*i+j))
 						}
 					}
@@ -101,7 +103,7 @@ func TestVerifSharedLogsBounded(t *testing.T) {
 				fmt.Printf("BOUNDED-FAIL integration %s (%s) on a client of its own stores %s, the node reports %s\n", name, extra, r, strings.Join(want, " "))
 			}
 		}
-		for _, order := range []string{"ABA", "BAB", "ABUAB", "UAB", "BUA", "AUB"} {
+		for _, order := range []string{"ABA", "BAB", "ABUAB", "UAB", "BUA", "AUB", "AR", "BRA", "RAB", "ABR"} {
 			cases++
 			client := jrpc2.New(ts.URL)
 			for k, c := range order {
